@@ -53,6 +53,8 @@ impl Mode {
 #[derive(Clone, Debug, PartialEq)]
 struct Ev {
     call: usize,
+    /// which public SDK call was running (set by Tr::call)
+    kind: &'static str,
     phase: String,
     step: u32,
     total: u32,
@@ -63,6 +65,7 @@ struct Probe {
     mode: Mode,
     n: AtomicUsize,
     call: AtomicUsize,
+    kind: Mutex<&'static str>,
     events: Mutex<Vec<Ev>>,
     /// (1-based invocation index, call index) at which the cancellation was delivered
     fired: Mutex<Option<(usize, usize)>>,
@@ -77,6 +80,7 @@ impl Probe {
             mode,
             n: AtomicUsize::new(0),
             call: AtomicUsize::new(0),
+            kind: Mutex::new(""),
             events: Mutex::new(Vec::new()),
             fired: Mutex::new(None),
             ctx: OnceLock::new(),
@@ -112,13 +116,14 @@ impl Probe {
             _ => {}
         }
         let saw_cancel = ctx.map(|c| c.is_cancelled()).unwrap_or(false);
-        if !ret || (matches!(self.mode, Mode::Flag(_)) && saw_cancel) {
+        if !ret || saw_cancel {
             let mut f = self.fired.lock().unwrap();
             if f.is_none() {
                 *f = Some((i, call));
             }
         }
-        self.events.lock().unwrap().push(Ev { call, phase: format!("{phase:?}"), step, total, saw_cancel });
+        let kind = *self.kind.lock().unwrap();
+        self.events.lock().unwrap().push(Ev { call, kind, phase: format!("{phase:?}"), step, total, saw_cancel });
         ret
     }
 }
@@ -126,19 +131,56 @@ impl Probe {
 #[derive(Debug, Clone)]
 struct Fail {
     call: usize,
+    /// c2pa::Error variant name, or "SwallowedOk" (the call during which the cancellation was
+    /// delivered returned Ok), or "Panic"
     kind: String,
     msg: String,
+    /// summary of the Ok value for SwallowedOk
+    detail: Option<Value>,
 }
 
-/// Tags which SDK call of a multi-call operation is running.
+/// Tags which SDK call of a multi-call operation is running and stops the operation as soon as
+/// the call that received the cancellation returns Ok (the verdict is about *that* call).
 struct Tr<'a> {
     probe: &'a Probe,
 }
 
 impl Tr<'_> {
-    fn call<T>(&self, idx: usize, f: impl FnOnce() -> c2pa::Result<T>) -> Result<T, Fail> {
+    fn call<T>(&self, idx: usize, kind: &'static str, f: impl FnOnce() -> c2pa::Result<T>) -> Result<T, Fail> {
+        self.call_s(idx, kind, f, |_| json!({"kind": kind}))
+    }
+    fn call_s<T>(&self, idx: usize, kind: &'static str, f: impl FnOnce() -> c2pa::Result<T>, sum: impl FnOnce(&T) -> Value) -> Result<T, Fail> {
         self.probe.call.store(idx, Ordering::SeqCst);
-        f().map_err(|e| Fail { call: idx, kind: report::err_kind(&e), msg: e.to_string().chars().take(160).collect() })
+        *self.probe.kind.lock().unwrap() = kind;
+        let r = f();
+        let fired_here = self.probe.fired.lock().unwrap().map(|(_, c)| c == idx).unwrap_or(false);
+        match r {
+            Ok(v) if fired_here => Err(Fail { call: idx, kind: "SwallowedOk".into(), msg: format!("{kind} returned Ok"), detail: Some(sum(&v)) }),
+            Ok(v) => Ok(v),
+            Err(e) => Err(Fail { call: idx, kind: report::err_kind(&e), msg: e.to_string().chars().take(160).collect(), detail: None }),
+        }
+    }
+}
+
+/// Stage of an operation, derived from the call kind and the documented phase order
+/// (`AddingIngredient* -> Thumbnail -> Hashing -> Signing -> Writing -> Embedding`, then the
+/// verify-after-sign pass): used as the cause class in witness signatures.
+fn stage(events: &[Ev], i: usize) -> String {
+    let e = &events[i];
+    match e.kind {
+        "add_ingredient" => "ingredient-load".into(),
+        "read" => "read-validate".into(),
+        "sign" => {
+            let before: Vec<&Ev> = events[..i].iter().filter(|x| x.call == e.call).collect();
+            if before.iter().any(|x| x.phase == "Embedding") {
+                "verify-after-sign".into()
+            } else if before.iter().any(|x| x.phase == "Writing") || matches!(e.phase.as_str(), "Writing" | "Thumbnail" | "Hashing" | "Signing" | "Embedding") {
+                "sign-core".into()
+            } else {
+                "sign-auto-ingredient".into()
+            }
+        }
+        k => k.to_string(),
     }
 }
 
@@ -156,6 +198,8 @@ struct Op {
     fmt: String,
     settings: String,
     ctx_signer: bool,
+    /// manifest bytes served by a canned HTTP resolver installed on the context (remote reads)
+    resolver: Option<Vec<u8>>,
     run: OpFn,
     /// in the probe run the result must satisfy this (otherwise the op is trivial / broken and skipped)
     probe_ok: fn(&Value) -> bool,
@@ -220,6 +264,20 @@ fn plain_sign(a: &Asset, settings: &str, intent: Option<BuilderIntent>, ingredie
     Some((dst.into_inner(), m))
 }
 
+/// Signs with a remote URL and no embedded manifest; returns (asset with the XMP reference, manifest bytes).
+fn plain_sign_remote(a: &Asset, settings: &str) -> Option<(Vec<u8>, Vec<u8>)> {
+    let ctx = Context::new().with_settings(settings).ok()?;
+    let mut b = Builder::from_context(ctx).with_definition(definition("prepared-remote")).ok()?;
+    b.set_intent(created());
+    b.set_no_embed(true);
+    b.set_remote_url("http://verif.invalid/manifest.c2pa");
+    let signer = signers::test_signer("ed25519");
+    let mut src = Cursor::new(a.bytes.clone());
+    let mut dst = Cursor::new(Vec::new());
+    let m = b.sign(signer.as_ref(), a.format, &mut src, &mut dst).ok()?;
+    Some((dst.into_inner(), m))
+}
+
 fn created() -> BuilderIntent {
     BuilderIntent::Create(c2pa::DigitalSourceType::DigitalCapture)
 }
@@ -238,16 +296,17 @@ fn sign_op(name: String, a: &Asset, hash: &'static str, settings: String, intent
         fmt,
         settings,
         ctx_signer: false,
+        resolver: None,
         probe_ok: any_ok,
         run: Box::new(move |ctx, tr| {
-            let mut b = tr.call(0, || Builder::from_shared_context(ctx).with_definition(definition("c23")))?;
+            let mut b = tr.call(0, "with_definition", || Builder::from_shared_context(ctx).with_definition(definition("c23")))?;
             if let Some(i) = intent.clone() {
                 b.set_intent(i);
             }
             let mut call = 1;
             for (ing, rel) in &ingredients {
                 let mut s = Cursor::new(ing.bytes.clone());
-                tr.call(call, || b.add_ingredient_from_stream(json!({"title": ing.name, "relationship": rel}).to_string(), ing.format, &mut s).map(|_| ()))?;
+                tr.call_s(call, "add_ingredient", || b.add_ingredient_from_stream(json!({"title": ing.name, "relationship": rel}).to_string(), ing.format, &mut s), |i| ingredient_summary(i))?;
                 call += 1;
             }
             if no_embed {
@@ -259,7 +318,7 @@ fn sign_op(name: String, a: &Asset, hash: &'static str, settings: String, intent
             let signer = signers::test_signer("ed25519");
             let mut src = Cursor::new(a.bytes.clone());
             let mut dst = Cursor::new(Vec::new());
-            let m = tr.call(call, || b.sign(signer.as_ref(), a.format, &mut src, &mut dst))?;
+            let m = tr.call(call, "sign", || b.sign(signer.as_ref(), a.format, &mut src, &mut dst))?;
             Ok(json!({"kind": "signed", "manifest_len": m.len(), "out_len": dst.get_ref().len()}))
         }),
     }
@@ -274,9 +333,10 @@ fn read_op(name: String, fmt: &str, hash: &'static str, signed: Vec<u8>, setting
         fmt: fmt.to_string(),
         settings,
         ctx_signer: false,
+        resolver: None,
         probe_ok: no_failures,
         run: Box::new(move |ctx, tr| {
-            let r = tr.call(0, || Reader::from_shared_context(ctx).with_stream(&f, Cursor::new(signed.clone())))?;
+            let r = tr.call_s(0, "read", || Reader::from_shared_context(ctx).with_stream(&f, Cursor::new(signed.clone())), reader_summary)?;
             Ok(reader_summary(&r))
         }),
     }
@@ -309,11 +369,12 @@ fn ingredient_op(name: String, fmt: &str, hash: &'static str, bytes: Vec<u8>, se
         fmt: fmt.to_string(),
         settings,
         ctx_signer: false,
+        resolver: None,
         probe_ok: no_failures,
         run: Box::new(move |ctx, tr| {
-            let mut b = tr.call(0, || Builder::from_shared_context(ctx).with_definition(definition("c23")))?;
+            let mut b = tr.call(0, "with_definition", || Builder::from_shared_context(ctx).with_definition(definition("c23")))?;
             let mut s = Cursor::new(bytes.clone());
-            let i = tr.call(1, || b.add_ingredient_from_stream(json!({"title": "ing", "relationship": "componentOf"}).to_string(), &f, &mut s))?;
+            let i = tr.call_s(1, "add_ingredient", || b.add_ingredient_from_stream(json!({"title": "ing", "relationship": "componentOf"}).to_string(), &f, &mut s), |i| ingredient_summary(i))?;
             Ok(ingredient_summary(i))
         }),
     }
@@ -330,11 +391,12 @@ fn embeddable_op(name: String, a: &Asset, hash: &'static str, settings: String, 
         fmt: a.format.to_string(),
         settings,
         ctx_signer: true,
+        resolver: None,
         probe_ok: no_failures,
         run: Box::new(move |ctx, tr| {
-            let mut b = tr.call(0, || Builder::from_shared_context(ctx).with_definition(definition("c23")))?;
+            let mut b = tr.call(0, "with_definition", || Builder::from_shared_context(ctx).with_definition(definition("c23")))?;
             b.set_intent(created());
-            let ph = tr.call(1, || b.placeholder(a.format))?;
+            let ph = tr.call(1, "placeholder", || b.placeholder(a.format))?;
             let mut out = a.bytes[..insert_at].to_vec();
             out.extend_from_slice(&ph);
             out.extend_from_slice(&a.bytes[insert_at..]);
@@ -345,11 +407,11 @@ fn embeddable_op(name: String, a: &Asset, hash: &'static str, settings: String, 
                 for j in 0..extra_exclusions {
                     ex.push(HashRange::new((tail - 2 - 4 * (j + 1)) as u64, 2));
                 }
-                tr.call(2, || b.set_data_hash_exclusions(ex).map(|_| ()))?;
+                tr.call(2, "set_data_hash_exclusions", || b.set_data_hash_exclusions(ex).map(|_| ()))?;
             }
             let mut s = Cursor::new(out.clone());
-            tr.call(3, || b.update_hash_from_stream(a.format, &mut s).map(|_| ()))?;
-            let signed = tr.call(4, || b.sign_embeddable(a.format))?;
+            tr.call(3, "update_hash_from_stream", || b.update_hash_from_stream(a.format, &mut s).map(|_| ()))?;
+            let signed = tr.call(4, "sign_embeddable", || b.sign_embeddable(a.format))?;
             if ph.is_empty() || signed.len() > ph.len() {
                 // box-hash mode has no placeholder; nothing to splice
                 return Ok(json!({"kind": "embeddable", "placeholder": ph.len(), "signed": signed.len(), "failures": []}));
@@ -359,6 +421,16 @@ fn embeddable_op(name: String, a: &Asset, hash: &'static str, settings: String, 
             let o = report::read_bytes(Context::new().with_settings(read_settings.as_str()).unwrap(), a.format, &out);
             Ok(json!({"kind": "embeddable", "placeholder": ph.len(), "signed": signed.len(), "state": o.state, "failures": o.failure_codes()}))
         }),
+    }
+}
+
+/// HTTP resolver answering every request with the same body (no network).
+struct CannedResolver(Vec<u8>);
+
+impl c2pa::http::SyncHttpResolver for CannedResolver {
+    fn http_resolve(&self, _request: c2pa::http::http::Request<Vec<u8>>) -> Result<c2pa::http::http::Response<Box<dyn std::io::Read>>, c2pa::http::HttpResolverError> {
+        let body: Box<dyn std::io::Read> = Box::new(Cursor::new(self.0.clone()));
+        Ok(c2pa::http::http::Response::builder().status(200).header("content-type", "application/c2pa").body(body)?)
     }
 }
 
@@ -436,9 +508,10 @@ fn build_ops(quick: bool) -> (Vec<Op>, Vec<String>) {
                 fmt: a.format.to_string(),
                 settings: plain.clone(),
                 ctx_signer: false,
+        resolver: None,
                 probe_ok: no_failures,
                 run: Box::new(move |ctx, tr| {
-                    let r = tr.call(0, || Reader::from_shared_context(ctx).with_manifest_data_and_stream(&m, &f, Cursor::new(src.clone())))?;
+                    let r = tr.call_s(0, "read", || Reader::from_shared_context(ctx).with_manifest_data_and_stream(&m, &f, Cursor::new(src.clone())), reader_summary)?;
                     Ok(reader_summary(&r))
                 }),
             });
@@ -456,9 +529,10 @@ fn build_ops(quick: bool) -> (Vec<Op>, Vec<String>) {
             fmt: "mp4".into(),
             settings: s,
             ctx_signer: false,
+        resolver: None,
             probe_ok: any_ok,
             run: Box::new(move |ctx, tr| {
-                let r = tr.call(0, || Reader::from_shared_context(ctx).with_fragment("mp4", Cursor::new(init.clone()), Cursor::new(frag.clone())))?;
+                let r = tr.call_s(0, "read", || Reader::from_shared_context(ctx).with_fragment("mp4", Cursor::new(init.clone()), Cursor::new(frag.clone())), reader_summary)?;
                 Ok(reader_summary(&r))
             }),
         });
@@ -523,33 +597,97 @@ fn build_ops(quick: bool) -> (Vec<Op>, Vec<String>) {
     ops.push(embeddable_op("embeddable|tiny.mp4|bmff".into(), &mp4, "bmff", plain.clone(), ftyp_len, 0));
     ops.push(embeddable_op("embeddable|tiny_big.mp4|merkle".into(), &big_mp4, "merkle", merkle.clone(), ftyp_len, 0));
 
+    // --- legacy data-hashed embeddable (data_hashed_placeholder / sign_data_hashed_embeddable)
+    {
+        let a = jpg.clone();
+        ops.push(Op {
+            name: "legacy-embeddable|tiny.jpg|data".into(),
+            family: "embeddable",
+            hash: "data",
+            fmt: "jpg".into(),
+            settings: plain.clone(),
+            ctx_signer: false,
+            resolver: None,
+            probe_ok: any_ok,
+            run: Box::new(move |ctx, tr| {
+                let mut b = tr.call(0, "with_definition", || Builder::from_shared_context(ctx).with_definition(definition("c23")))?;
+                b.set_intent(created());
+                let signer = signers::test_signer("ed25519");
+                let ph = tr.call(1, "data_hashed_placeholder", || b.data_hashed_placeholder(signer.reserve_size(), "image/jpeg"))?;
+                let mut out = a.bytes[..2].to_vec();
+                out.extend_from_slice(&ph);
+                out.extend_from_slice(&a.bytes[2..]);
+                let mut dh = c2pa::assertions::DataHash::new("source_hash", "sha256");
+                dh.exclusions = Some(vec![HashRange::new(2, ph.len() as u64)]);
+                let h = c2pa::hash_stream_by_alg("sha256", &mut Cursor::new(out.clone()), dh.exclusions.clone(), true).map_err(|e| Fail { call: 9, kind: "Harness".into(), msg: e.to_string(), detail: None })?;
+                dh.set_hash(h);
+                let m = tr.call(2, "sign_data_hashed_embeddable", || b.sign_data_hashed_embeddable(signer.as_ref(), &dh, "image/jpeg"))?;
+                Ok(json!({"kind": "signed", "manifest_len": m.len()}))
+            }),
+        });
+    }
+    // --- remote manifest fetched through a canned resolver
+    for a in [&jpg, &png] {
+        if let Some((out, m)) = plain_sign_remote(a, &plain) {
+            let f = a.format.to_string();
+            ops.push(Op {
+                name: format!("read|{}|data|remote-fetch", a.name),
+                family: "read",
+                hash: "data",
+                fmt: a.format.to_string(),
+                settings: base_settings(json!({"verify": {"remote_manifest_fetch": true}})),
+                ctx_signer: false,
+                resolver: Some(m),
+                probe_ok: no_failures,
+                run: Box::new(move |ctx, tr| {
+                    let r = tr.call_s(0, "read", || Reader::from_shared_context(ctx).with_stream(&f, Cursor::new(out.clone())), reader_summary)?;
+                    Ok(reader_summary(&r))
+                }),
+            });
+        } else {
+            skipped.push(format!("prepare-remote {}", a.name));
+        }
+    }
+    // --- small repository fixtures: other containers (webp, avif, heif, flac, jxl, avi, ...)
+    for a in assets::fixture_assets(if quick { 300_000 } else { 2_000_000 }) {
+        let h = if is_bmff(a.format) { "bmff" } else { "data" };
+        ops.push(sign_op(format!("sign|{}|{}|fixture-edit", a.name, h), &a, h, plain.clone(), Some(BuilderIntent::Edit), false, None, vec![]));
+        if let Some((sg, _)) = plain_sign(&a, &plain, Some(BuilderIntent::Edit), &[], false) {
+            ops.push(read_op(format!("read|{}|{}|fixture", a.name, h), a.format, h, sg, plain.clone()));
+        }
+    }
+
     // --- archive: to_archive / with_archive / sign
     if let Some(sj) = find("tiny.jpg", "data") {
-        for gen_c2pa in [false, true] {
-            let s = base_settings(json!({"builder": {"generate_c2pa_archive": gen_c2pa}}));
+        for gen_c2pa in [None, Some(true)] {
+            let s = match gen_c2pa {
+                Some(g) => base_settings(json!({"builder": {"generate_c2pa_archive": g}})),
+                None => plain.clone(),
+            };
             let jpg2 = jpg.clone();
             let sj2 = sj.clone();
             ops.push(Op {
-                name: format!("archive|tiny.jpg|data|c2pa-archive={gen_c2pa}"),
+                name: format!("archive|tiny.jpg|data|c2pa-archive={gen_c2pa:?}"),
                 family: "archive",
                 hash: "data",
                 fmt: "jpg".into(),
                 settings: s,
                 ctx_signer: false,
+        resolver: None,
                 probe_ok: any_ok,
                 run: Box::new(move |ctx, tr| {
-                    let mut b = tr.call(0, || Builder::from_shared_context(ctx).with_definition(definition("c23-archive")))?;
+                    let mut b = tr.call(0, "with_definition", || Builder::from_shared_context(ctx).with_definition(definition("c23-archive")))?;
                     b.set_intent(created());
                     let mut st = Cursor::new(sj2.bytes.clone());
-                    tr.call(1, || b.add_ingredient_from_stream(json!({"title": "ing", "relationship": "componentOf"}).to_string(), "jpg", &mut st).map(|_| ()))?;
+                    tr.call_s(1, "add_ingredient", || b.add_ingredient_from_stream(json!({"title": "ing", "relationship": "componentOf"}).to_string(), "jpg", &mut st), |i| ingredient_summary(i))?;
                     let mut ar = Cursor::new(Vec::new());
-                    tr.call(2, || b.to_archive(&mut ar))?;
+                    tr.call(2, "to_archive", || b.to_archive(&mut ar))?;
                     ar.set_position(0);
-                    let mut b2 = tr.call(3, || Builder::from_shared_context(ctx).with_archive(ar))?;
+                    let mut b2 = tr.call(3, "with_archive", || Builder::from_shared_context(ctx).with_archive(ar))?;
                     let signer = signers::test_signer("ed25519");
                     let mut src = Cursor::new(jpg2.bytes.clone());
                     let mut dst = Cursor::new(Vec::new());
-                    let m = tr.call(4, || b2.sign(signer.as_ref(), "jpg", &mut src, &mut dst))?;
+                    let m = tr.call(4, "sign", || b2.sign(signer.as_ref(), "jpg", &mut src, &mut dst))?;
                     Ok(json!({"kind": "signed", "manifest_len": m.len()}))
                 }),
             });
@@ -576,12 +714,15 @@ fn run_op(op: &Op, mode: Mode) -> RunOut {
     let mut c = match Context::new().with_settings(op.settings.as_str()) {
         Ok(c) => c,
         Err(e) => {
-            return RunOut { result: Err(Fail { call: 99, kind: "HarnessSettings".into(), msg: e.to_string() }), events: vec![], fired: None, panic: None, cancel_issued: false }
+            return RunOut { result: Err(Fail { call: 99, kind: "HarnessSettings".into(), msg: e.to_string(), detail: None }), events: vec![], fired: None, panic: None, cancel_issued: false }
         }
     };
     c = c.with_progress_callback(move |ph, s, t| p.on_event(ph, s, t));
     if op.ctx_signer {
         c = c.with_signer(signers::test_signer("ed25519"));
+    }
+    if let Some(m) = &op.resolver {
+        c = c.with_resolver(CannedResolver(m.clone()));
     }
     let ctx = Arc::new(c);
     let _ = probe.ctx.set(Arc::downgrade(&ctx));
@@ -612,7 +753,7 @@ fn run_op(op: &Op, mode: Mode) -> RunOut {
     let fired = *probe.fired.lock().unwrap();
     match r {
         Ok(result) => RunOut { result, events, fired, panic: None, cancel_issued: cancel_issued_before_end },
-        Err(p) => RunOut { result: Err(Fail { call: probe.call.load(Ordering::SeqCst), kind: "Panic".into(), msg: p.clone() }), events, fired, panic: Some(p), cancel_issued: cancel_issued_before_end },
+        Err(p) => RunOut { result: Err(Fail { call: probe.call.load(Ordering::SeqCst), kind: "Panic".into(), msg: p.clone(), detail: None }), events, fired, panic: Some(p), cancel_issued: cancel_issued_before_end },
     }
 }
 
@@ -651,23 +792,38 @@ struct CaseRes {
 }
 
 fn ev_json(e: &Ev) -> Value {
-    json!([e.call, e.phase, e.step, e.total])
+    json!([e.call, e.kind, e.phase, e.step, e.total])
 }
 
-fn outcome_class(res: &Result<Value, Fail>, fired_call: usize) -> (&'static str, String) {
+/// (outcome class, signature tail, human detail) for a run in which the cancellation was delivered
+/// during call `fired_call`.
+fn outcome_class(res: &Result<Value, Fail>, fired_call: usize) -> (String, String, String) {
     match res {
-        Err(f) if f.kind == "OperationCancelled" && f.call == fired_call => ("cancelled", String::new()),
-        Err(f) if f.kind == "OperationCancelled" => ("cancelled-late", format!("cancellation delivered in call {} but the error surfaced from call {}", fired_call, f.call)),
-        Err(f) if f.kind == "Panic" => ("panic", f.msg.clone()),
-        Err(f) => ("other-error", format!("{}: {}", f.kind, f.msg)),
-        Ok(v) => {
-            let fails = v["failures"].as_array().map(|a| a.len()).unwrap_or(0);
-            if fails > 0 {
-                ("ok-validation-failure", format!("returned Ok with failures {}", v["failures"]))
+        Err(f) if f.kind == "OperationCancelled" && f.call == fired_call => ("cancelled".into(), String::new(), String::new()),
+        Err(f) if f.kind == "OperationCancelled" => ("cancelled-late".into(), "cancelled-late".into(), format!("cancellation delivered in call {} but the error surfaced from call {}", fired_call, f.call)),
+        Err(f) if f.kind == "Panic" => ("panic".into(), "panic".into(), f.msg.clone()),
+        Err(f) if f.kind == "SwallowedOk" => {
+            let d = f.detail.clone().unwrap_or(Value::Null);
+            let mut codes: Vec<String> = d["failures"].as_array().map(|a| a.iter().filter_map(|x| x.as_str()).map(|x| x.rsplit(':').next().unwrap_or(x).to_string()).collect()).unwrap_or_default();
+            codes.sort();
+            codes.dedup();
+            if !codes.is_empty() {
+                ("ok-validation-failure".into(), format!("cancel-as-validation-failure|{}", codes.join("+")), format!("{} with validation failures {:?} standing in for the cancellation", f.msg, codes))
+            } else if d["kind"] == "ingredient" && d["has_manifest"] == false {
+                ("ok-no-manifest".into(), "ok-ingredient-without-manifest".into(), format!("{}: ingredient added without its manifest, no error", f.msg))
             } else {
-                ("ok", format!("returned Ok: {v}"))
+                ("ok".into(), "ok".into(), format!("{}: {}", f.msg, d))
             }
         }
+        Err(f) => (format!("other-error:{}", f.kind), format!("other-error:{}", f.kind), format!("{}: {}", f.kind, f.msg)),
+        Ok(v) => ("ok-op".into(), "ok".into(), format!("operation returned Ok: {v}")),
+    }
+}
+
+fn result_json(r: &Result<Value, Fail>) -> Value {
+    match r {
+        Ok(v) => json!({"ok": v}),
+        Err(f) => json!({"err": f.kind, "call": f.call, "msg": f.msg, "detail": f.detail}),
     }
 }
 
@@ -678,80 +834,74 @@ fn judge(opi: usize, op: &Op, mode: Mode, probe_events: &[Ev], out: &RunOut) -> 
     for (phase, inv, detail) in check_events(&out.events) {
         violations.push((format!("progress|{}|{}", phase, inv), format!("{}: {}", op.name, detail), json!({"op": op.name, "mode": mode.name(), "events": out.events.iter().map(ev_json).collect::<Vec<_>>() })));
     }
-    let sample;
     let mut class = None;
     let mut unjudged = None;
-    match mode {
+    let (k, extra) = match mode {
         Mode::Probe => unreachable!(),
-        Mode::Once(k) | Mode::Sticky(k) | Mode::Flag(k) => {
-            let kphase = probe_events.get(k - 1).map(|e| e.phase.clone()).unwrap_or_default();
-            sample = json!({"op": op.name, "mode": mode.name(), "k": k, "of": probe_events.len(), "phase_at_k": kphase, "result": match &out.result { Ok(v) => json!({"ok": v}), Err(f) => json!({"err": f.kind, "call": f.call}) }});
-            match out.fired {
-                None => {
-                    unjudged = Some("cancellation-not-delivered (fewer events than the probe run)".to_string());
-                    counters.push(("not_delivered", 1));
+        Mode::Once(k) | Mode::Sticky(k) | Mode::Flag(k) => (Some(k), json!({"k": k, "of": probe_events.len()})),
+        Mode::Delay { us, cb_sleep_us } => (None, json!({"delay_us": us, "cb_sleep_us": cb_sleep_us})),
+    };
+    let mut sample = json!({"op": op.name, "mode": mode.name(), "params": extra, "events": out.events.len(), "result": result_json(&out.result)});
+    match out.fired {
+        Some((i, call)) if i >= 1 && i <= out.events.len() => {
+            let ev = &out.events[i - 1];
+            let st = stage(&out.events, i - 1);
+            sample["delivered_at"] = json!({"callback": i, "phase": ev.phase, "sdk_call": ev.kind, "stage": st});
+            if let Some(k) = k {
+                // events up to k must replay the probe (determinism of the workload; counted, not judged)
+                let same = probe_events.len() >= i && out.events[..i].iter().zip(&probe_events[..i]).all(|(a, b)| a.call == b.call && a.phase == b.phase && a.step == b.step && a.total == b.total);
+                if !same || i != k {
+                    counters.push(("prefix_diverged_from_probe", 1));
                 }
-                Some((i, call)) => {
-                    // events before k must replay the probe (determinism of the workload, not judged as the property)
-                    let prefix_same = out.events.len() >= i && probe_events.len() >= i && out.events[..i].iter().zip(&probe_events[..i]).all(|(a, b)| a.call == b.call && a.phase == b.phase && a.step == b.step && a.total == b.total);
-                    if !prefix_same {
-                        counters.push(("prefix_diverged_from_probe", 1));
-                    }
-                    let (oc, detail) = outcome_class(&out.result, call);
-                    class = Some(format!("{}|{}|{}|{}|{}", op.family, op.hash, kphase, mode.name(), oc));
-                    if oc != "cancelled" {
-                        let after: Vec<Value> = out.events.iter().skip(i).take(6).map(ev_json).collect();
+            } else {
+                counters.push(("delay_checkpoint_saw_cancel", 1));
+            }
+            let (oc, sigtail, detail) = outcome_class(&out.result, call);
+            class = Some(format!("{}|{}|{}|{}|{}|{}", op.family, op.hash, ev.kind, ev.phase, mode.name(), oc));
+            if oc != "cancelled" {
+                let after: Vec<Value> = out.events.iter().skip(i).take(6).map(ev_json).collect();
+                let sig = if sigtail.starts_with("cancel-as-validation-failure") { sigtail.clone() } else { format!("{st}|{sigtail}") };
+                violations.push((
+                    sig,
+                    format!("{} [{}]: cancellation delivered at callback #{} ({} in {}()) -> {}", op.name, mode.name(), i, ev.phase, ev.kind, detail),
+                    json!({"op": op.name, "mode": mode.name(), "params": sample["params"], "delivered_at": sample["delivered_at"], "result": result_json(&out.result), "events_after_cancel": after, "events_total": out.events.len()}),
+                ));
+            }
+        }
+        Some(_) => {
+            unjudged = Some("harness: inconsistent fired index".to_string());
+        }
+        None => match mode {
+            Mode::Delay { us, .. } => {
+                // no checkpoint ran after the cancel: Ok or OperationCancelled (flag check right after
+                // the last callback) are both fine; reported, not judged
+                let kd = match &out.result {
+                    Ok(_) => "ok".to_string(),
+                    Err(f) if f.kind == "OperationCancelled" => "cancelled-at-flag-check".to_string(),
+                    Err(f) => format!("other-error:{}", f.kind),
+                };
+                if kd.starts_with("other-error") && out.cancel_issued {
+                    if let Err(f) = &out.result {
                         violations.push((
-                            format!("{}|{}|{}|{}", op.family, op.hash, kphase, oc),
-                            format!("{} [{}]: cancellation at callback #{} of {} ({}) -> {}", op.name, mode.name(), i, probe_events.len(), kphase, detail),
-                            json!({"op": op.name, "mode": mode.name(), "k": k, "phase_at_k": kphase, "call_at_k": call, "result": match &out.result { Ok(v) => json!({"ok": v}), Err(f) => json!({"err": f.kind, "call": f.call, "msg": f.msg}) }, "events_after_cancel": after, "events_total": out.events.len()}),
+                            format!("no-checkpoint|{kd}"),
+                            format!("{} [delay {}us]: cancel() issued, no checkpoint saw it, result {}: {}", op.name, us, f.kind, f.msg),
+                            json!({"op": op.name, "mode": "delay", "delay_us": us}),
                         ));
                     }
                 }
+                unjudged = Some(format!("no-checkpoint-after-cancel:{kd}"));
+                counters.push(("delay_no_checkpoint_after_cancel", 1));
             }
-        }
-        Mode::Delay { us, cb_sleep_us } => {
-            let saw = out.events.iter().position(|e| e.saw_cancel);
-            sample = json!({"op": op.name, "mode": "delay", "delay_us": us, "cb_sleep_us": cb_sleep_us, "first_checkpoint_seeing_cancel": saw.map(|x| x + 1), "events": out.events.len(), "result": match &out.result { Ok(_) => json!("ok"), Err(f) => json!({"err": f.kind}) }});
-            match saw {
-                Some(j) => {
-                    let call = out.events[j].call;
-                    let ph = out.events[j].phase.clone();
-                    let (oc, detail) = outcome_class(&out.result, call);
-                    class = Some(format!("{}|{}|{}|delay|{}", op.family, op.hash, ph, oc));
-                    counters.push(("delay_checkpoint_saw_cancel", 1));
-                    if oc != "cancelled" {
-                        violations.push((
-                            format!("{}|{}|{}|{}", op.family, op.hash, ph, oc),
-                            format!("{} [delay {}us]: checkpoint #{} ({}) saw is_cancelled() but -> {}", op.name, us, j + 1, ph, detail),
-                            json!({"op": op.name, "mode": "delay", "delay_us": us, "cb_sleep_us": cb_sleep_us, "checkpoint": j + 1, "phase": ph}),
-                        ));
-                    }
-                }
-                None => {
-                    // no checkpoint after the cancel: Ok or OperationCancelled are both fine; reported, not judged
-                    let k = match &out.result {
-                        Ok(_) => "ok",
-                        Err(f) if f.kind == "OperationCancelled" => "cancelled-at-flag-check",
-                        Err(_) => "other-error",
-                    };
-                    if k == "other-error" && out.cancel_issued {
-                        if let Err(f) = &out.result {
-                            violations.push((
-                                format!("{}|{}|no-checkpoint|other-error", op.family, op.hash),
-                                format!("{} [delay {}us]: cancel() issued, no checkpoint saw it, result {}: {}", op.name, us, f.kind, f.msg),
-                                json!({"op": op.name, "mode": "delay", "delay_us": us}),
-                            ));
-                        }
-                    }
-                    unjudged = Some(format!("no-checkpoint-after-cancel:{k}"));
-                    counters.push(("delay_no_checkpoint_after_cancel", 1));
-                }
+            _ => {
+                unjudged = Some("cancellation-not-delivered (fewer events than the probe run)".to_string());
+                counters.push(("not_delivered", 1));
             }
-        }
+        },
     }
     if let Some(p) = &out.panic {
-        violations.push((format!("{}|{}|panic", op.family, op.hash), format!("{}: panic {}", op.name, p), json!({"op": op.name, "mode": mode.name()})));
+        if out.fired.is_none() {
+            violations.push(("panic|no-cancel".to_string(), format!("{}: panic {}", op.name, p), json!({"op": op.name, "mode": mode.name()})));
+        }
     }
     CaseRes { op: opi, mode, class, unjudged, violations, events: out.events.len(), sample, counters }
 }
